@@ -1179,6 +1179,12 @@ class Interp:
 
         if self.extra_transfer is not None:
             rv_ = self.extra_transfer(self, fr, t, c, pth)
+            if rv_ == 'panic':
+                # the modelled call panics on this path (e.g. a length mismatch in copy_from_slice)
+                pth.events.append(('diverge', where))
+                if self._fork_ctx is not None:
+                    self._fork_ctx[1].append((pth, ('diverges', where), {}))
+                return 'diverged'
             if rv_:
                 return rv_ if rv_ == 'diverged' else None
 
